@@ -997,22 +997,7 @@ def main(tier: str) -> int:
 # repair (detect_variant) prints them as KNOWN-FINDING for exactly the inputs escape_verdict attributes to them; a tree WITH the
 # repair is compared with the repaired model, where the same inputs must be refused before the first mutation.
 # Integrator: after committing a patch delete its entry here - a tree without the repair is then a VIOLATION.
-PENDING_FIXES = {
-    "C10-override-namespace-escapes": dict(
-        id="C10-override-namespace-escapes", property="C10", patch="fixes/C10-reject-non-namespace-override.patch",
-        what="`#override` / `#link` take any string as a namespace: `#override \"..\"`, `\"\"`, `\".\"`, `\"../../x\"`, an absolute path make "
-             "build() run shutil.rmtree on the output directory, its data folder or a folder outside of it (foreign namespaces, loose files, "
-             "other datapacks deleted) - header_parse.py #override/#link, compiling.py overrides_folders; repaired by "
-             "fixes/C10-reject-non-namespace-override.patch",
-        match=dict(header_argument="not a plain name", every_escaped_path="at or below normpath(data/<argument>)")),
-    "C10-resource-path-escapes": dict(
-        id="C10-resource-path-escapes", property="C10", patch="fixes/C10-reject-resource-path-outside-folder.patch",
-        what="a generated resource whose name comes from a string argument or from jmc.txt (Predicate.locations(name=\"../../foreign/predicate/x\"), "
-             "PRIVATE=../../../zz) is written outside data/<namespace> (a foreign namespace, the output root, another datapack): user "
-             "function / JSON names go through convention_jmc_to_mc, DataPack.add_json / private names do not - theorem "
-             "C10_paths_lexical_refuted_hardened; repaired by fixes/C10-reject-resource-path-outside-folder.patch",
-        match=dict(resource_path="has an empty, `.` or `..` segment", every_escaped_path="the normalised target or an ancestor created for it")),
-}
+PENDING_FIXES = {}   # every pending repair has been committed upstream; known_findings.json is the only authority
 
 PROPOSED_KNOWN = {
     "C10-malformed-tag-after-mutation": dict(
